@@ -158,69 +158,75 @@ theorem freeElem_cnSame (s : Sys) (c v i : Nat) : CnSame s (freeElem s c v i) :=
       · exact CnSame.trans (b := s.setC c _) (CnSame.refl s) (onDisabledVar_cnSame _ c)
     · exact CnSame.refl s
 
+theorem upto_succ_none (s : Sys) (v i : Nat) (u j : Nat) :
+    (stdLoc s).upto v (i+1) none u j = ((stdLoc s).upto v i none).upd v i none u j := by
+  simp only [Loc.upto, Loc.upd, stdLoc]
+  by_cases hu : u = v
+  · by_cases hj : j = i
+    · simp [hu, hj]
+    · by_cases hj2 : j < i
+      · have : j < i + 1 := by omega
+        simp [hu, hj, hj2, this]
+      · have : ¬ j < i + 1 := by omega
+        simp [hu, hj, hj2, this]
+  · simp [hu]
+
+/-- state after erasing the enabled element `(v, i)` in `var_free` (before the tail) -/
+theorem WFX_freedEn {s : Sys} {v i : Nat} (c : Nat) (e : Entry) (h : WFX s v i) (hcn : (s.vars v).cn[i]? = some c)
+    (hp : (s.vars v).pen ≠ 0) : WFX (s.setC c ((s.cnsts c).freedEn v i e)) v (i+1) := by
+  have hlt : i < (s.vars v).cn.length := (List.getElem?_eq_some_iff.mp hcn).1
+  have hLt : (stdLoc s).upto v i none v i = some true := by simp [Loc.upto, stdLoc, hp]
+  have hw : WFl (s.setC c ((s.cnsts c).freedEn v i e)) (((stdLoc s).upto v i none).upd v i none) := by
+    apply WFl_relocate h.l c v i _ none hcn
+    · intro x hx _; exact List.mem_of_mem_eraseP hx
+    · intro x hx hr; exact (List.mem_eraseP_of_neg (by rw [hr]; exact Bool.false_ne_true)).mpr hx
+    · intro x hx hr
+      have := not_isRef_of_mem_eraseP v i _ (h.l.enK c) x hx
+      rw [this] at hr; exact Bool.noConfusion hr
+    · intro hh; cases hh
+    · exact List.Pairwise.sublist List.eraseP_sublist (h.l.enK c)
+    · intro x hx _; exact hx
+    · intro x hx _; exact hx
+    · intro x hx hr
+      have hr' := (isRef_iff v i x).mp hr
+      have := (h.l.disA c x hx).2
+      rw [hr'.1, hr'.2, hLt] at this
+      exact Bool.noConfusion (Option.some.inj this)
+    · intro hh; cases hh
+    · exact h.l.disK c
+  exact ⟨hw.congr (upto_succ_none s v i), h.so.frame ⟨rfl, rfl, rfl, rfl⟩ (fun _ => rfl) (fun _ => rfl) h.so.st, hlt⟩
+
+theorem WFX_freedDis {s : Sys} {v i : Nat} (c : Nat) (h : WFX s v i) (hcn : (s.vars v).cn[i]? = some c)
+    (hp : (s.vars v).pen = 0) : WFX (s.setC c ((s.cnsts c).freedDis v i)) v (i+1) := by
+  have hlt : i < (s.vars v).cn.length := (List.getElem?_eq_some_iff.mp hcn).1
+  have hLt : (stdLoc s).upto v i none v i = some false := by simp [Loc.upto, stdLoc, hp]
+  have hw : WFl (s.setC c ((s.cnsts c).freedDis v i)) (((stdLoc s).upto v i none).upd v i none) := by
+    apply WFl_relocate h.l c v i _ none hcn
+    · intro x hx _; exact hx
+    · intro x hx _; exact hx
+    · intro x hx hr
+      have hr' := (isRef_iff v i x).mp hr
+      have := (h.l.enA c x hx).2
+      rw [hr'.1, hr'.2, hLt] at this
+      exact Bool.noConfusion (Option.some.inj this)
+    · intro hh; cases hh
+    · exact h.l.enK c
+    · intro x hx _; exact List.mem_of_mem_eraseP hx
+    · intro x hx hr; exact (List.mem_eraseP_of_neg (by rw [hr]; exact Bool.false_ne_true)).mpr hx
+    · intro x hx hr
+      have := not_isRef_of_mem_eraseP v i _ (h.l.disK c) x hx
+      rw [this] at hr; exact Bool.noConfusion hr
+    · intro hh; cases hh
+    · exact List.Pairwise.sublist List.eraseP_sublist (h.l.disK c)
+  exact ⟨hw.congr (upto_succ_none s v i), h.so.frame ⟨rfl, rfl, rfl, rfl⟩ (fun _ => rfl) (fun _ => rfl) h.so.st, hlt⟩
+
 theorem WFX_freeElem {s : Sys} {v i : Nat} (c : Nat) (h : WFX s v i) (hcn : (s.vars v).cn[i]? = some c)
     (hnf : (freeElem s c v i).failed = false) : WFX (freeElem s c v i) v (i+1) := by
-  have hlt : i < (s.vars v).cn.length := (List.getElem?_eq_some_iff.mp hcn).1
-  have hLi : (stdLoc s).upto v i none v i = some (decide ((s.vars v).pen ≠ 0)) := by
-    simp [Loc.upto, stdLoc]
-  have hcongr : ∀ u j, (stdLoc s).upto v (i+1) none u j = ((stdLoc s).upto v i none).upd v i none u j := by
-    intro u j
-    simp only [Loc.upto, Loc.upd, stdLoc]
-    by_cases hu : u = v
-    · by_cases hj : j = i
-      · simp [hu, hj]
-      · by_cases hj2 : j < i
-        · have : j < i + 1 := by omega
-          simp [hu, hj, hj2, this]
-        · have : ¬ j < i + 1 := by omega
-          simp [hu, hj, hj2, this]
-    · simp [hu]
   rcases freeElem_inv s c v i hnf with ⟨hp, e, he, _, heq⟩ | ⟨hp, hen, e, he, heq⟩
   · rw [heq] at hnf ⊢
-    have hpen : (s.vars v).pen ≠ 0 := by omega
-    have hLt : (stdLoc s).upto v i none v i = some true := by rw [hLi]; simp [hpen]
-    have hw : WFl (s.setC c ((s.cnsts c).freedEn v i e)) (((stdLoc s).upto v i none).upd v i none) := by
-      apply WFl_relocate h.l c v i _ none hcn
-      · intro x hx _; exact List.mem_of_mem_eraseP hx
-      · intro x hx hr; exact (List.mem_eraseP_of_neg (by rw [hr]; exact Bool.false_ne_true)).mpr hx
-      · intro x hx hr
-        have := not_isRef_of_mem_eraseP v i _ (h.l.enK c) x hx
-        rw [this] at hr; exact Bool.noConfusion hr
-      · intro hh; cases hh
-      · exact List.Pairwise.sublist List.eraseP_sublist (h.l.enK c)
-      · intro x hx _; exact hx
-      · intro x hx _; exact hx
-      · intro x hx hr
-        have hr' := (isRef_iff v i x).mp hr
-        have := (h.l.disA c x hx).2
-        rw [hr'.1, hr'.2, hLt] at this
-        exact Bool.noConfusion (Option.some.inj this)
-      · intro hh; cases hh
-      · exact h.l.disK c
-    apply WFX_freeTail c _ hnf
-    exact ⟨hw.congr hcongr, h.so.frame ⟨rfl, rfl, rfl, rfl⟩ (fun _ => rfl) (fun _ => rfl) h.so.st, hlt⟩
+    exact WFX_freeTail c (WFX_freedEn c e h hcn (by omega)) hnf
   · rw [heq] at hnf ⊢
-    have hLt : (stdLoc s).upto v i none v i = some false := by rw [hLi]; simp [hp]
-    have hw : WFl (s.setC c ((s.cnsts c).freedDis v i)) (((stdLoc s).upto v i none).upd v i none) := by
-      apply WFl_relocate h.l c v i _ none hcn
-      · intro x hx _; exact hx
-      · intro x hx _; exact hx
-      · intro x hx hr
-        have hr' := (isRef_iff v i x).mp hr
-        have := (h.l.enA c x hx).2
-        rw [hr'.1, hr'.2, hLt] at this
-        exact Bool.noConfusion (Option.some.inj this)
-      · intro hh; cases hh
-      · exact h.l.enK c
-      · intro x hx _; exact List.mem_of_mem_eraseP hx
-      · intro x hx hr; exact (List.mem_eraseP_of_neg (by rw [hr]; exact Bool.false_ne_true)).mpr hx
-      · intro x hx hr
-        have := not_isRef_of_mem_eraseP v i _ (h.l.disK c) x hx
-        rw [this] at hr; exact Bool.noConfusion hr
-      · intro hh; cases hh
-      · exact List.Pairwise.sublist List.eraseP_sublist (h.l.disK c)
-    apply WFX_freeTail c _ hnf
-    exact ⟨hw.congr hcongr, h.so.frame ⟨rfl, rfl, rfl, rfl⟩ (fun _ => rfl) (fun _ => rfl) h.so.st, hlt⟩
+    exact WFX_freeTail c (WFX_freedDis c h hcn hp) hnf
 
 /-- the loop of `var_free` -/
 theorem WFX_forElems_freeElem {s : Sys} (v : Nat) (h : WFX s v 0)
